@@ -27,6 +27,9 @@
 //! ```
 
 use parking_lot::RwLock;
+#[cfg(feature = "verif-hooks")]
+use crate::verif_hooks::{HashMap, HashSet};
+#[cfg(not(feature = "verif-hooks"))]
 use std::collections::{HashMap, HashSet};
 use std::sync::Arc;
 
